@@ -57,6 +57,7 @@ type StParams struct {
 	RTTms        int    `json:"rtt,omitempty"` // 0: no RTT sample, window auto-tuning stays off
 	AllowInc     bool   `json:"inc,omitempty"`
 	StreamID     int64  `json:"id"`
+	Tail         int    `json:"tail,omitempty"` // extra bytes beyond the lattice: room for gap bursts
 }
 
 // StOp is one operation. Frames carry absolute offsets so that Apply needs no generator state.
@@ -139,6 +140,7 @@ type streamMachine struct {
 		finalSizeErr, flowErr, eof, resetSeen, resetAt, resetReduced, resetErrRead                        bool
 		cancel, shutdown, deadline, blocked, woken, peekOK, peekEOF, peekReset, pooled                    bool
 		recycled, windowUpdate, afterComplete, relData, finEmpty, reduceNoWake, cancelNoWake, preDeadline bool
+		bursted, gapErr                                                                                   bool
 		frames                                                                                            int
 	}
 }
@@ -146,7 +148,7 @@ type streamMachine struct {
 func newStreamMachine(p StParams) *streamMachine {
 	cuts := prefixSums(p.Sizes)
 	n := cuts[len(cuts)-1]
-	m := &streamMachine{p: p, cuts: cuts, d: genData(n+64, p.Seed), set: newByteSet(n + 64), now: int64(time.Second),
+	m := &streamMachine{p: p, cuts: cuts, d: genData(n+64+p.Tail, p.Seed), set: newByteSet(n + 64 + p.Tail), now: int64(time.Second),
 		streamLimit: p.StreamWin, connLimit: p.ConnWin, frames: map[*wire.StreamFrame]*frameRec{}}
 	rtt := &utils.RTTStats{}
 	if p.RTTms > 0 {
@@ -295,6 +297,22 @@ func (m *streamMachine) frame(op StOp) *vf.Verdict {
 	err := m.str.VerifHandleStreamFrame(f, m.t())
 	finalSizeErr := (m.finalKnown && (end > m.final || (op.Fin && end != m.final))) || (!m.finalKnown && op.Fin && end < m.highest)
 	flowErr := end > m.highest && (end > m.streamLimit || end > m.connLimit)
+	if !finalSizeErr && !flowErr && (err != nil || m.st.bursted) && !m.cancelled && !m.shutdown {
+		// the frame sorter's gap limit: the frame is consistent, but queueing it would leave too many gaps
+		wasDup := n == 0 || m.set.all(off, end)
+		if !wasDup {
+			probe := &byteSet{have: append([]bool(nil), m.set.have...)}
+			probe.add(off, end)
+			if g := probe.gaps(m.rpos, min(max(m.highest, end), len(m.d))); g > protocol.MaxStreamFrameSorterGaps {
+				m.st.gapErr = true
+				m.dead = true
+				if err == nil {
+					return vf.Bad("C03/stream/gap-limit-not-enforced", "%s leaves %d gaps in the received data (limit %d) but was accepted", what, g, protocol.MaxStreamFrameSorterGaps)
+				}
+				return nil
+			}
+		}
+	}
 	rejected, v := m.checkRejection(what, err, finalSizeErr, flowErr)
 	if v != nil {
 		return v
@@ -692,6 +710,18 @@ func (m *streamMachine) Apply(op StOp) *vf.Verdict {
 		m.dlExpired = false
 	case "flush":
 		m.flush()
+	case "burst":
+		base := m.highest
+		for i := 0; i < clamp(op.N, 0, 1100) && !m.dead; i++ {
+			off := base + 1 + 2*i
+			if off+1 > len(m.d) {
+				break
+			}
+			m.st.bursted = true
+			if v := m.frame(StOp{K: "frame", Off: off, Len: 1}); v != nil {
+				return v
+			}
+		}
 	}
 	return m.settle()
 }
@@ -758,16 +788,30 @@ func (m *streamMachine) Gen(t *rapid.T) StOp {
 	tf := m.trueFinal()
 	room := min(limit, tf) // consistent data ends at or below this
 
-	kinds := []string{"next", "next", "next", "lattice", "lattice", "dup", "straddle", "fin", "hostile", "reset",
-		"read", "read", "read", "peek", "peek", "cancel", "shutdown", "timeout", "flush", "flush"}
-	if m.pending != nil {
-		kinds = []string{"next", "next", "next", "lattice", "lattice", "dup", "straddle", "fin", "hostile", "reset", "reset",
-			"cancel", "shutdown", "timeout", "flush"}
-	}
+	weights := []struct {
+		k string
+		w int
+	}{{"next", 8}, {"lattice", 7}, {"dup", 3}, {"straddle", 4}, {"fin", 3}, {"ahead", 4}, {"hostile", 1}, {"reset", 2}, {"burst", 1},
+		{"read", 10}, {"peek", 5}, {"cancel", 1}, {"shutdown", 1}, {"timeout", 1}, {"flush", 4}}
 	if m.dead {
-		kinds = []string{"read", "read", "peek", "cancel", "shutdown", "timeout", "cleardl"}
-		if m.pending != nil {
-			kinds = []string{"cancel", "shutdown", "timeout"}
+		weights = weights[:0]
+		for _, k := range []string{"read", "read", "peek", "cancel", "shutdown", "timeout", "cleardl"} {
+			weights = append(weights, struct {
+				k string
+				w int
+			}{k, 1})
+		}
+	}
+	var kinds []string
+	for _, w := range weights {
+		if w.k == "burst" && m.p.Tail > 0 {
+			w.w = 6
+		}
+		if m.pending != nil && (w.k == "read" || w.k == "peek" || w.k == "cleardl") {
+			continue
+		}
+		for i := 0; i < w.w; i++ {
+			kinds = append(kinds, w.k)
 		}
 	}
 	if m.dlExpired && m.pending == nil && rapid.Bool().Draw(t, "clear") {
@@ -791,6 +835,10 @@ func (m *streamMachine) Gen(t *rapid.T) StOp {
 		a := rapid.IntRange(0, nc-1).Draw(t, "a")
 		b := rapid.IntRange(a+1, min(a+4, nc)).Draw(t, "b")
 		return consistent(m.cuts[a], m.cuts[b], "lattice")
+	case "ahead": // starts beyond everything contiguous: leaves a gap
+		a := min(m.cutAtOrBelow(frontier)+rapid.IntRange(1, 3).Draw(t, "skip"), nc)
+		b := min(a+rapid.IntRange(1, 3).Draw(t, "b"), nc)
+		return consistent(m.cuts[a], m.cuts[b], "ahead")
 	case "dup":
 		if len(m.sent) == 0 {
 			return StOp{K: "flush", Dt: dt}
@@ -857,7 +905,7 @@ func (m *streamMachine) Gen(t *rapid.T) StOp {
 				op.Final = max(lo, m.cuts[m.cutAtOrBelow(op.Final)])
 			}
 		}
-		switch rapid.SampledFrom([]string{"ok", "ok", "ok", "ok", "ok", "wrong", "low", "window"}).Draw(t, "how") {
+		switch rapid.SampledFrom([]string{"ok", "ok", "ok", "ok", "ok", "ok", "ok", "ok", "ok", "wrong", "low", "window"}).Draw(t, "how") {
 		case "wrong":
 			op.Final = max(0, op.Final+rapid.SampledFrom([]int{-1, 1}).Draw(t, "by"))
 			op.Cl = "reset-final-moved"
@@ -892,15 +940,20 @@ func (m *streamMachine) Gen(t *rapid.T) StOp {
 		n := rapid.SampledFrom([]int{1, 1, 2, 63, 127, 128, 129, 300, a - 1, a, a, a + 1, 2 * a, a / 2, 1500, 5000}).Draw(t, "n")
 		return StOp{K: k, N: max(n, 1), Pre: rapid.IntRange(0, 2).Draw(t, "pre") == 0, Dt: dt}
 	case "cancel":
-		if rapid.IntRange(0, 2).Draw(t, "really") != 0 {
+		if !m.dead && rapid.IntRange(0, 1).Draw(t, "really") != 0 {
 			return StOp{K: "flush", Dt: dt}
 		}
 		return StOp{K: "cancel", Code: rapid.Uint64Range(0, 3).Draw(t, "code"), Dt: dt}
 	case "shutdown":
-		if rapid.IntRange(0, 3).Draw(t, "really") != 0 {
+		if !m.dead && rapid.IntRange(0, 2).Draw(t, "really") != 0 {
 			return StOp{K: "flush", Dt: dt}
 		}
 		return StOp{K: "shutdown", Dt: dt}
+	case "burst": // isolated one-byte frames beyond everything received so far, towards the sorter's gap limit
+		if m.p.Tail == 0 || m.finalKnown || rapid.IntRange(0, 1).Draw(t, "really") != 0 {
+			return StOp{K: "flush", Dt: dt}
+		}
+		return StOp{K: "burst", N: rapid.SampledFrom([]int{5, 300, 990, 1000, 1010}).Draw(t, "cnt"), Dt: dt, Cl: "burst"}
 	case "timeout":
 		return StOp{K: "timeout", Dt: dt}
 	case "cleardl":
@@ -951,6 +1004,12 @@ func genStParams(t *rapid.T) StParams {
 	p.ConnWin = max(1, win("cwin"))
 	p.MaxStreamWin = p.StreamWin * rapid.SampledFrom([]int{1, 2, 8}).Draw(t, "smax")
 	p.MaxConnWin = p.ConnWin * rapid.SampledFrom([]int{1, 2, 8}).Draw(t, "cmax")
+	if rapid.IntRange(0, 9).Draw(t, "tail") == 0 {
+		p.Tail = 2100
+		p.StreamWin = total + p.Tail + 4096
+		p.ConnWin = total + p.Tail + 4096
+		p.MaxStreamWin, p.MaxConnWin = 2*p.StreamWin, 2*p.ConnWin
+	}
 	p.RTTms = rapid.SampledFrom([]int{0, 0, 1, 50}).Draw(t, "rtt")
 	p.AllowInc = rapid.Bool().Draw(t, "inc")
 	return p
@@ -1002,7 +1061,7 @@ func (m *streamMachine) bookkeeping(u *vf.Unit) {
 		{"reset-after-reliable-data", s.relData}, {"cancel-read", s.cancel}, {"shutdown", s.shutdown}, {"deadline", s.deadline},
 		{"pre-expired-deadline", s.preDeadline}, {"blocked", s.blocked}, {"woken", s.woken}, {"peek-ok", s.peekOK}, {"peek-eof", s.peekEOF},
 		{"peek-reset", s.peekReset}, {"pooled-frame", s.pooled}, {"buffer-recycled", s.recycled}, {"window-update", s.windowUpdate},
-		{"frame-after-completion", s.afterComplete}, {"fin-empty", s.finEmpty}, {"completed", m.completed.Load() == 1},
+		{"frame-after-completion", s.afterComplete}, {"gap-limit", s.gapErr}, {"fin-empty", s.finEmpty}, {"completed", m.completed.Load() == 1},
 		{"finding:reliable-size-reduced-no-wakeup", s.reduceNoWake}, {"finding:cancelread-after-reset-at-no-wakeup", s.cancelNoWake}} {
 		if c.b {
 			u.Class(c.n)
